@@ -148,6 +148,12 @@ pub fn gen_c01(c: &mut Ctx) {
                     for f in 0..8 {
                         p!(c, "bin {} {} {} {} {}", ty, op, f, a.show(), b.show());
                     }
+                    // an operand combined with itself: the same object on both sides (forms 8, 9),
+                    // and an equal copy (one of the ordinary forms)
+                    let f = c.rng.below(8);
+                    p!(c, "bin {} {} 8 {} {}", ty, op, a.show(), a.show());
+                    p!(c, "bin {} {} 9 {} {}", ty, op, a.show(), a.show());
+                    p!(c, "bin {} {} {} {} {}", ty, op, f, a.show(), a.show());
                 }
             }
         }
@@ -430,6 +436,31 @@ pub fn gen_c09(c: &mut Ctx) {
                 }
                 b.clear();
             }
+            // a sign, blank or non-digit written over the first / second / last digit of every
+            // 16-digit block (the parser works block by block), keeping the length right
+            {
+                let a = gen_dense(&mut c.rng, n);
+                let s: Vec<char> = hexstr_of(&a).chars().collect();
+                let per = if n >= 6 { 16 } else { s.len() };
+                let mut k = 0;
+                while k < s.len() {
+                    for off in [0usize, 1, per - 1] {
+                        if k + off < s.len() {
+                            for rep in ['+', '-', ' ', 'g'] {
+                                let mut m = s.clone();
+                                m[k + off] = rep;
+                                let ms: String = m.into_iter().collect();
+                                p!(c, "fromhex {} {} {}", ty, n, show_bytes(ms.as_bytes()));
+                            }
+                        }
+                    }
+                    k += per;
+                    if k >= 4 * per && k + per < s.len() {
+                        // long strings: first four blocks and the last one
+                        k = s.len() - per;
+                    }
+                }
+            }
             // arbitrary strings over the alphabet, lengths 0..=W+2
             let width = hexstr_of(&Tab::zero(n)).len();
             let cnt = if c.thorough { 60 } else { 16 };
@@ -653,8 +684,15 @@ fn hist_token(r: &mut Rng, n: usize, allow_canon: bool) -> String {
     let b = r.below(4);
     let nbits = 1usize << n;
     loop {
-        let k = r.below(30);
+        let k = r.below(32);
         let tok = match k {
+            30 | 31 => {
+                // conversion from a dynamic table: same size (accepted) or another size
+                // (must be refused and leave the register alone), dense words
+                let n2 = if r.coin() { n } else { r.below(9) };
+                let t = gen_dense(r, n2);
+                format!("conv,{},{},{}", d, n2, show_words(&t.w).replace(',', ";"))
+            }
             0 => format!("zero,{}", d),
             1 => format!("one,{}", d),
             2 if n > 0 => format!("nth,{},{}", d, r.below(n)),
